@@ -79,8 +79,10 @@ struct tv_rep { THR *b, *e, *c; };
    tt.n_join == 0 && tt.n_detach == 0 && tt.t_join == 0 && tt.t_detach == 0 && \
    gh_lock_depth == 0 && gh_lock_held == 0 && gh_n_lock == 0 && gh_n_unlock == 0 && gh_C != 0 && gh_C < (1ul << 32) && gh_me != 0 && tm.env_unjoined <= 1)
 /* pool invariant (holds whenever the mutex is free): the flag is a bool; a stopped pool has no queued closure and no worker in its list */
-#define TP_INV(p) ((p)->_exit <= 1 && tm.q_len < (1ul << 40) && ((p)->_exit == 0 || (tm.q_len == 0 && TV(&(p)->_threads)->e == TV(&(p)->_threads)->b)) && \
-   (tm.c_where != C_QUEUED || tm.q_len >= 1) && ((p)->_exit == 1 || tm.env_unjoined == 0))
+/* the exit flag is read/written through its first byte: works for `bool _exit` and for a rewrite to std::atomic<bool> alike */
+#define TP_EXIT(p) (*(cv_i8 *)&(p)->_exit)
+#define TP_INV(p) (TP_EXIT(p) <= 1 && tm.q_len < (1ul << 40) && (TP_EXIT(p) == 0 || (tm.q_len == 0 && TV(&(p)->_threads)->e == TV(&(p)->_threads)->b)) && \
+   (tm.c_where != C_QUEUED || tm.q_len >= 1) && (TP_EXIT(p) == 1 || tm.env_unjoined == 0))
 
 /* ---------------------------------------------------------------- closures (cocls::function<void()> as an abstract cell) */
 static void tp_closure_dies(cv_i64 id, cv_i8 ran) {
@@ -177,6 +179,22 @@ void tq_swap(TQ *a, TQ *b) {
   if (tm.c_where == C_QUEUED) tm.c_where = C_SWAPPED; else if (tm.c_where == C_SWAPPED) tm.c_where = C_QUEUED; }
 #endif
 
+#ifdef CV_HAS_tq_move_assign
+/* std::queue::operator=(queue&&): the elements the destination held die HERE (un-run, = cancelled), then it takes over the source's */
+TQ *tq_move_assign(TQ *dst, TQ *src) {
+  tq_guard(dst); tq_guard(src);
+  __CPROVER_assert(tq_is_pool(dst) != tq_is_pool(src) && tm.lq_live, "model: move-assignment between the pool queue and the local queue");
+  if (tq_is_pool(dst)) {
+    if (tm.q_len > 0) { __CPROVER_assert(!(gh_lock_depth > 0), "queued closures are destroyed (= cancelled) while the pool mutex is held"); tm.n_unrun += tm.q_len; }
+    if (tm.c_where == C_QUEUED) { tm.c_unrun++; tm.c_where = C_GONE; } else if (tm.c_where == C_SWAPPED) tm.c_where = C_QUEUED;
+    tm.q_len = tm.lq_len; tm.lq_len = 0;
+  } else {
+    if (tm.lq_len > 0) { __CPROVER_assert(!(gh_lock_depth > 0), "the swapped-out closures are destroyed (= cancelled) while the pool mutex is held"); tm.n_unrun += tm.lq_len; }
+    if (tm.c_where == C_SWAPPED) { tm.c_unrun++; tm.c_where = C_GONE; } else if (tm.c_where == C_QUEUED) tm.c_where = C_SWAPPED;
+    tm.lq_len = tm.q_len; tm.q_len = 0; }
+  tm.front_valid = 0; return dst; }
+#endif
+
 /* ---------------------------------------------------------------- std::vector<std::thread>, std::thread */
 static void tv_guard(TVEC *v) {
 #ifdef TP_IN_CTOR      /* during construction _threads belongs to the constructing thread: started workers never touch it, nobody else knows the pool yet */
@@ -267,11 +285,11 @@ void _ZNSt18condition_variableD1Ev(CONDV *cv) { }
 
 /* ---------------------------------------------------------------- rely of the pool mutex, snapshots at acquisition / release */
 static void tp_rely(TP *p) {
-  if (p->_exit == 0 && nondet_bool()) {                 /* some thread ran stop(): flag set, queue and worker list swapped out */
+  if (TP_EXIT(p) == 0 && nondet_bool()) {                 /* some thread ran stop(): flag set, queue and worker list swapped out */
     if (TV(&p->_threads)->e != TV(&p->_threads)->b) tm.env_unjoined = 1;      /* ... into a local of THAT thread, which joins them some time later */
-    p->_exit = 1; tm.q_len = 0; TV(&p->_threads)->e = TV(&p->_threads)->b;
+    TP_EXIT(p) = 1; tm.q_len = 0; TV(&p->_threads)->e = TV(&p->_threads)->b;
     if (tm.c_where == C_QUEUED) tm.c_where = C_TAKEN;
-  } else if (p->_exit == 0) {                           /* submitters pushed, workers popped */
+  } else if (TP_EXIT(p) == 0) {                           /* submitters pushed, workers popped */
     cv_i64 n = nondet_size_t(); __CPROVER_assume(n < (1ul << 40));
     if (tm.c_where == C_QUEUED && (n == 0 || nondet_bool())) tm.c_where = C_TAKEN;              /* another worker dequeued the tracked closure   */
     else if (tm.c_where == C_ELSEWHERE && n >= 1 && nondet_bool()) tm.c_where = C_QUEUED;       /* another thread submitted the tracked closure  */
@@ -282,7 +300,7 @@ void tp_on_lock(void *m) {
   __CPROVER_assert(m == (void *)&gh_pool->_mx, "model: the mutex acquired is the pool mutex");
   if (tm.rely_on) tp_rely(gh_pool);
   TP_GH_NOWRAP(tm.n_cs); tm.n_cs++;
-  tm.exit_at_lock = gh_pool->_exit; tm.len_at_lock = tm.q_len; tm.c_where_at_lock = tm.c_where;
+  tm.exit_at_lock = TP_EXIT(gh_pool); tm.len_at_lock = tm.q_len; tm.c_where_at_lock = tm.c_where;
 #ifdef TP_TRACK_THREADS
   tm.nthr_at_lock = TV_N(&gh_pool->_threads);
 #endif
@@ -290,7 +308,7 @@ void tp_on_lock(void *m) {
 void tp_on_unlock(void *m) {
   __CPROVER_assert(!tm.pool_dead, "the pool mutex is used after the pool was destroyed");
   __CPROVER_assert(m == (void *)&gh_pool->_mx, "model: the mutex released is the pool mutex");
-  __CPROVER_assert(gh_pool->_exit <= 1 && (gh_pool->_exit == 0 || tm.q_len == 0), "pool invariant at release: a stopped pool holds no queued closure (nothing is accepted after the exit flag is set)");
-  __CPROVER_assert(gh_pool->_exit == 0 || TV(&gh_pool->_threads)->e == TV(&gh_pool->_threads)->b, "pool invariant at release: a stopped pool has handed its worker list to the stopping thread");
-  __CPROVER_assert(tm.exit_at_lock == 0 || gh_pool->_exit == 1, "the exit flag is never cleared (stopped threads cannot be restarted)");
-  tm.exit_at_unlock = gh_pool->_exit; tm.len_at_unlock = tm.q_len; tm.thr_empty_at_unlock = TV(&gh_pool->_threads)->e == TV(&gh_pool->_threads)->b; }
+  __CPROVER_assert(TP_EXIT(gh_pool) <= 1 && (TP_EXIT(gh_pool) == 0 || tm.q_len == 0), "pool invariant at release: a stopped pool holds no queued closure (nothing is accepted after the exit flag is set)");
+  __CPROVER_assert(TP_EXIT(gh_pool) == 0 || TV(&gh_pool->_threads)->e == TV(&gh_pool->_threads)->b, "pool invariant at release: a stopped pool has handed its worker list to the stopping thread");
+  __CPROVER_assert(tm.exit_at_lock == 0 || TP_EXIT(gh_pool) == 1, "the exit flag is never cleared (stopped threads cannot be restarted)");
+  tm.exit_at_unlock = TP_EXIT(gh_pool); tm.len_at_unlock = tm.q_len; tm.thr_empty_at_unlock = TV(&gh_pool->_threads)->e == TV(&gh_pool->_threads)->b; }
